@@ -13,7 +13,7 @@ checks = []
 for pid in all_ids:
     if pid not in props:
         continue
-    mine = [h for h in hs if h["prop"] == pid]
+    mine = [h for h in hs if pid in (h["prop"] or "").split(",")]
     if not mine:
         continue
     m = props[pid]
